@@ -104,6 +104,32 @@ func run(op trial.Op) uint64 {
 		return digest(c, al, s.ToNRGBA(c, al))
 	case "LineariseColor":
 		return digest(s.LineariseColor(color.NRGBA64{R: uint16(a), G: uint16(a * 5), B: uint16(a * 11), A: uint16(40000 + a%20000)}))
+	case "DecodeTyped":
+		// the same decode through different dynamic colour types (type-specific fast paths share the lazy tables)
+		var c color.Color
+		switch a % 7 {
+		case 0:
+			c = color.Gray16{Y: uint16(a)}
+		case 1:
+			c = color.Gray{Y: uint8(a)}
+		case 2:
+			c = color.RGBA{R: uint8(a) / 2, G: uint8(a) / 3, B: 1, A: uint8(a) | 1}
+		case 3:
+			c = color.RGBA64{R: uint16(a) / 2, G: uint16(a) / 3, B: 1, A: uint16(a) | 1}
+		case 4:
+			c = color.Alpha16{A: uint16(a)}
+		case 5:
+			c = color.CMYK{C: uint8(a), M: uint8(a >> 2), Y: uint8(a >> 4), K: 3}
+		default:
+			c = color.NYCbCrA{YCbCr: color.YCbCr{Y: uint8(a), Cb: uint8(a >> 3), Cr: uint8(a >> 5)}, A: uint8(a >> 1)}
+		}
+		col, al := s.FromEncoded(c)
+		return digest(col, al, s.LineariseColor(c), s.EncodeColor(c))
+	case "Primaries":
+		r := ciexyy.Color{X: 0.60 + float32(a%90)/1000, Y: 0.33, YY: 1}
+		g := ciexyy.Color{X: 0.21 + float32(a%70)/1000, Y: 0.70, YY: 1}
+		b := ciexyy.Color{X: 0.15, Y: 0.05 + float32(a%30)/1000, YY: 1}
+		return digest(ciexyz.TransformToXYZForXYYPrimaries(r, g, b, ciexyy.D65), ciexyz.TransformFromXYZForXYYPrimaries(r, g, b, ciexyy.D50))
 	case "EncodeColor":
 		return digest(s.EncodeColor(color.NRGBA64{R: uint16(a), G: uint16(a * 5), B: uint16(a * 11), A: uint16(40000 + a%20000)}))
 	case "LineariseImage", "EncodeImage":
